@@ -117,7 +117,8 @@ def run(tier):
     open(os.path.join(wd, "Cargo.toml"), "w").write(
         '[package]\nname = "c20gen"\nversion = "0.0.0"\nedition = "2021"\n[workspace]\n[dependencies]\ndryoc = { path = "/repo", features = ["nightly"] }\nzeroize = "1.6"\n')
     open(os.path.join(wd, ".cargo", "config.toml"), "w").write("[net]\noffline = true\n")
-    shutil.copy("/repo/Cargo.lock", os.path.join(wd, "Cargo.lock"))
+    # the pinned dependency versions: the repository's lock file, or the harness's copy of it
+    shutil.copy("/repo/Cargo.lock" if os.path.exists("/repo/Cargo.lock") else os.path.join(HARNESS, "Cargo.lock"), os.path.join(wd, "Cargo.lock"))
     cells = {}
     for c in table["prot"]:
         for ri, (rname, stmt, primary) in enumerate(OPS[c["op"]]):
